@@ -353,8 +353,465 @@ def task_code_tables(tier, seed, arg):
             if not nat.maps_close(a, O["bases"][t][c]["atoms"], 1e-12) or not close(3 * V, O["bases"][t][c]["V"], 1e-12):
                 R.notes.append("%s base %s literal is not phosphate+%s+%s of NUCLEIC_ACID_COMPONENTS" % (t, c, sug, b))
     missing_code = [t + ":" + c for t in TYPES for c, m in sorted(fasta.CODE_TABLES[t].items())
-                    if O[t].get(c, {}).get("of") is None or t != "aa" if getattr(m, "code", None) != c]
+                    if (t != "aa" or O[t].get(c, {}).get("of") is None) and getattr(m, "code", None) != c]
     if missing_code:
         R.notes.append("entries without a matching .code attribute (not part of the property; the nucleotide builder sets "
                        "rna.code twice and dna.code never): " + " ".join(missing_code))
+    return R.done()
+
+
+# ----------------------------------------------------------------------------- task 2: additivity
+def _expected_seq(t, cleaned):
+    """sum over residue codes of (atoms, V, q) from the source literals; left-to-right float sums"""
+    O = _oracle()[t]
+    atoms, V, q = {}, 0.0, 0.0
+    for c in cleaned:
+        e = O[c]
+        for k, x in e["atoms"].items():
+            atoms[k] = atoms.get(k, 0) + x
+        V += e["V"]
+        q += e["q"]
+    return atoms, V, q
+
+
+def _hill_order_ok(structure):
+    """C first, then H (H, then its isotopes / D / T), then the rest alphabetically -- only the ORDER
+    of distinct atoms is read here; used to compare two structures, not as an oracle for C19"""
+    return [nat.atom_name(a) for _n, a in structure]
+
+
+def _check_sequence(R, t, raw, perm=None, task="additivity", rtol=1e-9):
+    """all clauses of the property for Sequence(name, raw, type=t); `perm` is a permutation of the
+    cleaned residue string whose results must coincide.  Returns obligations evaluated."""
+    import periodictable
+    from periodictable import fasta
+    inp = {"kind": "seq", "type": t, "raw": raw, "perm": perm}
+    hid = "%s:%s" % (t, _hid(t, raw))
+    n = 0
+    cleaned = _clean(raw)
+    want_atoms, want_V, want_q = _expected_seq(t, cleaned)
+    try:
+        s = fasta.Sequence("name", raw, type=t)
+    except Exception as e:
+        R.violation("%s:exception:%s" % (task, hid), "Sequence() raised on a string over the code table (spaces, '*'+junk allowed)",
+                    inp, _exc(e), "no exception")
+        return 1
+    n += 1
+    if s.sequence != cleaned:
+        R.violation("%s:sequence:%s" % (task, hid), "spaces must be ignored and everything after the first '*' dropped",
+                    inp, s.sequence[:200], cleaned[:200])
+    got = s.labile_formula.atoms
+    n += 1
+    if not nat.maps_close(got, want_atoms, rtol):
+        R.violation("%s:atoms:%s" % (task, hid), "labile_formula atoms are not the sum of the residue atoms", inp,
+                    _names(got), _names(want_atoms))
+    n += 1
+    if not close(s.cell_volume, want_V, rtol, 0.0):
+        R.violation("%s:cell_volume:%s" % (task, hid), "cell volume is not the sum of the residue cell volumes", inp, s.cell_volume, want_V)
+    n += 1
+    if not close(s.charge, want_q, rtol, 1e-9):
+        R.violation("%s:charge:%s" % (task, hid), "charge is not the sum of the residue charges", inp, s.charge, want_q)
+    mh, md, ml = _mass(want_atoms, "H"), _mass(want_atoms, "D"), _mass(want_atoms)
+    n += 2
+    if not close(s.mass, mh, rtol, 0.0):
+        R.violation("%s:mass:%s" % (task, hid), "mass is not the mass of the summed formula with H[1]->H", inp, s.mass, mh)
+    if not close(s.Dmass, md, rtol, 0.0):
+        R.violation("%s:Dmass:%s" % (task, hid), "Dmass is not the mass of the summed formula with H[1]->D", inp, s.Dmass, md)
+    nat_atoms = s.natural_formula.atoms
+    H1 = periodictable.elements.H[1]
+    wn = dict(want_atoms)
+    if H1 in wn:
+        wn[periodictable.elements.H] = wn.get(periodictable.elements.H, 0) + wn.pop(H1)
+    n += 1
+    if not nat.maps_close(nat_atoms, wn, rtol):
+        R.violation("%s:natural_formula:%s" % (task, hid), "natural_formula is not the summed formula with H[1]->H", inp,
+                    _names(nat_atoms), _names(wn))
+    n += 2
+    if want_V > 0:
+        dl, dn = _density(ml, want_V), _density(mh, want_V)
+        if not close(s.labile_formula.density, dl, rtol):
+            R.violation("%s:density_labile:%s" % (task, hid), "labile_formula.density is not 1e24*m(labile formula)/N_A/cell_volume",
+                        inp, s.labile_formula.density, dl)
+        if not close(s.natural_formula.density, dn, rtol):
+            R.violation("%s:density_natural:%s" % (task, hid), "natural_formula.density is not 1e24*mass/N_A/cell_volume",
+                        inp, s.natural_formula.density, dn)
+    else:
+        # mass 0 over volume 0: Molecule defines the density as 0; anything but 0/None/nan is a failure
+        for nm, f in (("labile", s.labile_formula), ("natural", s.natural_formula)):
+            d = f.density
+            if not (d is None or d == 0 or d != d):
+                R.violation("%s:density_%s:%s" % (task, nm, hid), "empty cell (volume 0, mass 0) has a finite non-zero density", inp, d, 0)
+    # formula prefixes
+    n += 1
+    try:
+        f = periodictable.formula("%s:%s" % (t, raw))
+        fa = f.atoms
+        if not nat.maps_close(fa, want_atoms, rtol) or not nat.maps_close(fa, got, 0.0):
+            R.violation("%s:prefix_atoms:%s" % (task, hid), "formula('%s:SEQ') does not have the atoms of Sequence(SEQ).labile_formula" % t,
+                        inp, _names(fa), _names(got))
+        n += 1
+        if not (f.density == s.labile_formula.density or close(f.density, s.labile_formula.density, 1e-12)):
+            R.violation("%s:prefix_density:%s" % (task, hid), "formula('%s:SEQ') does not have the density of Sequence(SEQ).labile_formula" % t,
+                        inp, f.density, s.labile_formula.density)
+        n += 1
+        if _hill_order_ok(f.structure) != _hill_order_ok(s.labile_formula.structure):
+            R.violation("%s:prefix_structure:%s" % (task, hid), "formula('%s:SEQ') is structured differently from Sequence(SEQ).labile_formula" % t,
+                        inp, _hill_order_ok(f.structure), _hill_order_ok(s.labile_formula.structure))
+    except Exception as e:
+        R.violation("%s:prefix_exception:%s" % (task, hid), "formula('%s:SEQ') raised on a string over the code table" % t, inp, _exc(e), "no exception")
+    # order independence
+    if perm is not None:
+        try:
+            p = fasta.Sequence("name", perm, type=t)
+        except Exception as e:
+            R.violation("%s:perm_exception:%s" % (task, hid), "Sequence() raised on a permutation of an accepted sequence", inp, _exc(e), "no exception")
+            return n + 1
+        n += 6
+        pa = p.labile_formula.atoms
+        if not nat.maps_close(pa, got, rtol):
+            R.violation("%s:perm_atoms:%s" % (task, hid), "formula depends on the residue order", inp, _names(pa), _names(got))
+        for nm in ("cell_volume", "charge", "mass", "Dmass"):
+            if not close(getattr(p, nm), getattr(s, nm), rtol, 1e-9 if nm == "charge" else 0.0):
+                R.violation("%s:perm_%s:%s" % (task, nm, hid), "%s depends on the residue order" % nm, inp, getattr(p, nm), getattr(s, nm))
+        st1, st2 = list(s.labile_formula.structure), list(p.labile_formula.structure)
+        same = len(st1) == len(st2) and all(a1 is a2 and close(c1, c2, rtol) for (c1, a1), (c2, a2) in zip(st1, st2))
+        if not same:
+            R.violation("%s:perm_structure:%s" % (task, hid), "the Hill-ordered formula of a permuted sequence is structured differently",
+                        inp, [[c, nat.atom_name(a)] for c, a in st2], [[c, nat.atom_name(a)] for c, a in st1])
+        if want_V > 0 and not close(p.labile_formula.density, s.labile_formula.density, rtol):
+            R.violation("%s:perm_density:%s" % (task, hid), "density depends on the residue order", inp,
+                        p.labile_formula.density, s.labile_formula.density)
+    return n
+
+
+_JUNK = "abcxyz0123456789*:;#@!?. \tACGTUXN-"
+
+
+def _random_raw(rng, codes, length, ambiguity):
+    """(raw, cleaned-length) : random residues, random embedded spaces, optional '*'+junk"""
+    pool = codes if ambiguity else [c for c in codes]
+    body = [rng.choice(pool) for _ in range(length)]
+    out = []
+    p_space = rng.choice([0.0, 0.0, 0.05, 0.3])
+    for c in body:
+        while rng.random() < p_space:
+            out.append(" ")
+        out.append(c)
+    if rng.random() < 0.3:
+        out.append(" " * rng.randint(1, 3))
+    raw = "".join(out)
+    if rng.random() < 0.4:
+        raw += "*" + "".join(rng.choice(_JUNK) for _ in range(rng.randint(0, 12)))
+    if rng.random() < 0.1:
+        raw = " " + raw
+    return raw
+
+
+def task_additivity(tier, seed, arg):
+    from periodictable import fasta
+    rng = random.Random(seed)
+    n_seq = 300 if tier == "quick" else 20000
+    n_long = 1 if tier == "quick" else 4
+    R = Result("seeded random strings over the keys of each code table (all residue and ambiguity codes incl. gap/masked), "
+               "%d strings of length 0..200 split evenly over aa/dna/rna plus %d of length 5000 per type plus fixed edge cases "
+               "('', ' ', '*', '*junk', gap-only, every single code, every code x200); random embedded spaces and, in 40%%, a '*' "
+               "followed by junk (letters, digits, '*', ':', tab ...).  Expected values: residue atoms/volume/charge from the "
+               "literals in fasta.py (ast), summed here; mass = sum count*atomic mass with H[1]->H, Dmass with H[1]->D; density as "
+               "Molecule.__init__ defines it: labile_formula.density = 1e24*(mass of the LABILE formula, H[1] isotope mass)/N_A/"
+               "cell_volume, natural_formula.density = 1e24*(mass, H[1]->H)/N_A/cell_volume (the replace() rescaling), 0 when the "
+               "cell volume is 0; each string is also re-evaluated on a seeded permutation of its residues (atoms, volume, charge, "
+               "masses, density, and the Hill structure atom-for-atom) and through formula('aa:'/'dna:'/'rna:' + raw).  rel 1e-9. "
+               "distinct = distinct (type, cleaned residue string) of length >= 1; bounded sample" % (n_seq, n_long))
+    cases = []
+    for t in TYPES:
+        codes = sorted(fasta.CODE_TABLES[t])
+        O = _oracle()[t]
+        amb = [c for c in codes if O.get(c, {}).get("of") is not None]
+        for raw in ("", " ", "   ", "*", "*junk A", "  *A", "-", "--- -", "A*", "A *A", "A**A"):
+            cases.append((t, raw))
+        if t != "aa":
+            cases.append((t, "XX-X"))
+        for c in codes:
+            cases.append((t, c))
+            cases.append((t, c * 200))
+        cases.append((t, "".join(codes)))
+        cases.append((t, "".join(reversed(codes))))
+        if amb:
+            cases.append((t, "".join(amb) * 7))
+        for i in range(n_seq // 3):
+            L = rng.choice([0, 1, 2, 3, rng.randint(0, 20), rng.randint(0, 200), rng.randint(0, 200)])
+            sub = codes if rng.random() < 0.7 else rng.sample(codes, rng.randint(1, min(4, len(codes))))
+            cases.append((t, _random_raw(rng, sub, L, True)))
+        for i in range(n_long):
+            cases.append((t, _random_raw(rng, codes, 5000, True)))
+    for t, raw in cases:
+        cl = list(_clean(raw))
+        rng.shuffle(cl)
+        perm = "".join(cl)
+        n = _check_sequence(R, t, raw, perm)
+        R.ok(n, (t, _clean(raw)) if _clean(raw) else None)
+        if len(raw) < 60 and "*" in raw and " " in raw and len(_clean(raw)) > 3:
+            R.sample({"type": t, "raw": raw, "cleaned": _clean(raw), "perm": perm})
+    return R.done()
+
+
+# ----------------------------------------------------------------------------- task 3: FASTA files
+EXT_TYPE = {".fna": "dna", ".ffn": "dna", ".faa": "aa", ".frn": "rna"}
+OTHER_NAMES = ["seq.fasta", "seq.fa", "seq.txt", "seq", "seq.FNA", "seq.fna.txt", "seqfna", "seq.frn.bak", "seq.fas", "fna"]
+
+
+def _expected_type(filename, explicit):
+    """statement: typed by the file extension (.fna/.ffn dna, .faa aa, .frn rna, anything else aa); explicit type= wins"""
+    if explicit is not None:
+        return explicit
+    return EXT_TYPE.get(os.path.splitext(filename)[1], "aa")
+
+
+def _expected_records(text):
+    """one record per line starting with '>': (header line, concatenation of the following lines),
+    line ends and trailing blanks/tabs removed; lines before the first header belong to no record"""
+    records = []
+    cur = None
+    for line in text.replace("\r\n", "\n").split("\n"):
+        line = line.rstrip(" \t\r")
+        if line.startswith(">"):
+            cur = [line, []]
+            records.append(cur)
+        elif cur is not None:
+            cur[1].append(line)
+    return [(h, "".join(ls)) for h, ls in records]
+
+
+def _random_fasta(rng, t):
+    """text of a FASTA file whose sequences are strings over the code table of type t"""
+    from periodictable import fasta
+    codes = sorted(fasta.CODE_TABLES[t])
+    eol_mode = rng.choice(["\n", "\n", "\r\n", "mixed"])
+
+    def eol():
+        return rng.choice(["\n", "\r\n"]) if eol_mode == "mixed" else eol_mode
+
+    def trail():
+        return rng.choice(["", "", "", " ", "   ", "\t", " \t "])
+    lines = []
+    if rng.random() < 0.3:
+        for _ in range(rng.randint(1, 3)):
+            lines.append(rng.choice(["", "junk before any header", "ACGT", "; comment", "  "]))
+    nrec = rng.choice([0, 1, 1, 2, 3, 4, 5, 6])
+    for r in range(nrec):
+        kind = rng.random()
+        if kind < 0.2:
+            head = ">"
+        elif kind < 0.5:
+            head = ">seq%d" % r
+        else:
+            head = ">sp|P%05d|NAME_%d some description text, len=%d" % (rng.randint(0, 99999), r, rng.randint(0, 999))
+        lines.append(head + trail())
+        if rng.random() < 0.25:
+            lines.append("")
+        if rng.random() < 0.08:
+            continue                       # header directly followed by the next header / end of file
+        L = rng.choice([1, 5, rng.randint(1, 60), rng.randint(1, 300)])
+        seq = "".join(rng.choice(codes) for _ in range(L))
+        if rng.random() < 0.25:
+            seq += "*"
+        nlines = rng.randint(1, 5)
+        cuts = sorted(rng.randint(0, len(seq)) for _ in range(nlines - 1))
+        parts = [seq[a:b] for a, b in zip([0] + cuts, cuts + [len(seq)])]
+        for p in parts:
+            if rng.random() < 0.15 and len(p) > 4:
+                p = p[:len(p) // 2] + " " + p[len(p) // 2:]      # blocked layout: interior space
+            lines.append(p + trail())
+            if rng.random() < 0.1:
+                lines.append("")
+        if rng.random() < 0.2:
+            lines.append("")
+    text = "".join(l + eol() for l in lines)
+    if lines and rng.random() < 0.3:
+        text = text.rstrip("\r\n")                                 # no newline at end of file
+    return text
+
+
+def _check_loaded(R, key, inp, s, header, seqtext, t, which):
+    """a loaded Sequence against the record it must come from, under the expected type"""
+    n = 2
+    if s.name != header:
+        R.violation("fasta_files:%s_name:%s" % (which, key), "%s: record name is not the header line" % which, inp, s.name, header)
+    cleaned = _clean(seqtext)
+    if s.sequence != cleaned:
+        R.violation("fasta_files:%s_sequence:%s" % (which, key), "%s: sequence is not the concatenation of the lines after the header" % which,
+                    inp, s.sequence[:200], cleaned[:200])
+    try:
+        atoms, V, q = _expected_seq(t, cleaned)
+    except KeyError:
+        return n
+    n += 3
+    if not nat.maps_close(s.labile_formula.atoms, atoms, 1e-9) or not close(s.cell_volume, V, 1e-9) or not close(s.charge, q, 1e-9, 1e-9):
+        # say which type would have explained the observation
+        seen = None
+        for t2 in TYPES:
+            try:
+                a2, V2, q2 = _expected_seq(t2, cleaned)
+            except KeyError:
+                continue
+            if nat.maps_close(s.labile_formula.atoms, a2, 1e-9) and close(s.cell_volume, V2, 1e-9):
+                seen = t2
+        R.violation("fasta_files:%s_type:%s" % (which, key),
+                    "%s: the sequence is not evaluated with the code table of the type given by the extension / explicit type=" % which,
+                    inp, {"matches_type": seen, "cell_volume": s.cell_volume, "atoms": _names(s.labile_formula.atoms)},
+                    {"type": t, "cell_volume": V, "atoms": _names(atoms)})
+    return n
+
+
+def _check_fasta(R, tmpdir, text, filename, explicit, notes=None):
+    from periodictable import fasta
+    inp = {"kind": "fasta", "text": text, "filename": filename, "type": explicit}
+    key = _hid(text, filename, explicit)
+    want = _expected_records(text)
+    t = _expected_type(filename, explicit)
+    n = 0
+    # read_fasta on a text stream without newline translation (lines keep their '\r\n')
+    for label, opener in (("stringio", lambda: io.StringIO(text, newline="")), ("file", None)):
+        path = os.path.join(tmpdir, filename)
+        if opener is None:
+            with open(path, "wb") as fh:
+                fh.write(text.encode("ascii"))
+            opener = lambda: open(path, "rt")
+        n += 1
+        try:
+            with opener() as fh:
+                got = [tuple(r) for r in fasta.read_fasta(fh)]
+        except Exception as e:
+            R.violation("fasta_files:read_exception:%s:%s" % (label, key), "read_fasta raised on a well-formed FASTA text", inp, _exc(e), "no exception")
+            continue
+        if got != want:
+            R.violation("fasta_files:records:%s:%s" % (label, key),
+                        "read_fasta does not yield exactly one (header line, concatenated following lines) per '>' header, in order",
+                        inp, got[:8], want[:8])
+    path = os.path.join(tmpdir, filename)
+    kw = {} if explicit is None else {"type": explicit}
+    # loadall
+    n += 1
+    try:
+        seqs = list(fasta.Sequence.loadall(path, **kw))
+    except Exception as e:
+        seqs = None
+        R.violation("fasta_files:loadall_exception:%s" % key, "Sequence.loadall raised on a well-formed FASTA file", inp, _exc(e), "no exception")
+    if seqs is not None:
+        if len(seqs) != len(want):
+            R.violation("fasta_files:loadall_count:%s" % key, "Sequence.loadall does not give one Sequence per '>' header", inp, len(seqs), len(want))
+        for i, (s, (h, q)) in enumerate(zip(seqs, want)):
+            n += _check_loaded(R, key + ":%d" % i, inp, s, h, q, t, "loadall")
+    # load
+    n += 1
+    try:
+        s = fasta.Sequence.load(path, **kw)
+    except Exception as e:
+        if want:
+            R.violation("fasta_files:load_exception:%s" % key, "Sequence.load raised on a file that has a first record", inp, _exc(e), "no exception")
+        elif notes is not None:
+            notes[type(e).__name__] = notes.get(type(e).__name__, 0) + 1
+    else:
+        if not want:
+            R.violation("fasta_files:load_phantom:%s" % key, "Sequence.load returned a sequence from a file without any '>' header", inp,
+                        [s.name, s.sequence[:100]], "no record")
+        else:
+            n += _check_loaded(R, key, inp, s, want[0][0], want[0][1], t, "load")
+    try:
+        os.remove(path)
+    except OSError:
+        pass
+    return n, len(want)
+
+
+def _mkdtemp():
+    os.makedirs("/var/tmp", exist_ok=True)
+    return tempfile.mkdtemp(prefix="c18_", dir="/var/tmp")
+
+
+def task_fasta_files(tier, seed, arg):
+    rng = random.Random(seed)
+    n_files = 200 if tier == "quick" else 5000
+    R = Result("%d seeded FASTA texts written under /var/tmp (removed afterwards): 0..6 records; headers '>' alone, '>id', '>id text'; "
+               "blank lines; text before the first header; a header directly followed by the next one; sequences over the expected "
+               "type's code table split over 1..5 lines with interior blanks, optional final '*', trailing blanks/tabs, LF / CRLF / "
+               "mixed line ends, with and without final newline; file names with .fna .ffn .faa .frn and %r; explicit type= in "
+               "30%% of the files (often contradicting the extension).  Expected records by a line reader written here (header line "
+               "= line starting with '>' without line end/trailing blanks, sequence = concatenation of the following lines); "
+               "read_fasta on io.StringIO(newline='') and on the opened file; Sequence.loadall all records, Sequence.load the first; "
+               "type checked by comparing atoms/volume/charge with the sums over the expected type's literals (rel 1e-9). "
+               "distinct = distinct (file name class, explicit type, #records, line-end mode) ; bounded sample"
+               % (n_files, OTHER_NAMES))
+    tmp = _mkdtemp()
+    load_empty = {}
+    try:
+        fixed = [("", "empty.faa", None), ("\n\n", "blank.fna", None), ("no header at all\nACGT\n", "nohdr.fna", None),
+                 (">\n", "bare.faa", None), (">", "bare2.frn", None), (">\nACGU\n>\n>\nGG", "bares.frn", None),
+                 ("ACGT\n>h\nAC\nGT\n", "pre.fna", None), (">h\r\nAC  \r\n\r\nGU\t\r\n", "crlf.frn", None),
+                 (">h\nACDEFGHIKLMNPQRSTVWY*\n", "star.faa", None), (">h\nACGT\n", "x.ffn", None),
+                 (">h\nACGT\n", "x.faa", "dna"), (">h\nACGU\n", "x.fna", "rna"), (">h\nACDE\n", "x.fna", "aa")]
+        todo = list(fixed)
+        for i in range(n_files):
+            if rng.random() < 0.6:
+                ext = rng.choice(sorted(EXT_TYPE))
+                filename = rng.choice(["s", "my seq", "a.b", "x.fna"]) + ext
+            else:
+                filename = rng.choice(OTHER_NAMES)
+            explicit = rng.choice(TYPES) if rng.random() < 0.3 else None
+            t = _expected_type(filename, explicit)
+            todo.append((_random_fasta(rng, t), filename, explicit))
+        for text, filename, explicit in todo:
+            n, nrec = _check_fasta(R, tmp, text, filename, explicit, load_empty)
+            ext = os.path.splitext(filename)[1]
+            R.ok(n, (ext if ext in EXT_TYPE else "other:" + filename, explicit, nrec,
+                     "crlf" if "\r\n" in text else "lf"))
+            if 0 < len(text) < 120 and nrec >= 2:
+                R.sample({"filename": filename, "type": explicit, "text": text, "expected_type": _expected_type(filename, explicit),
+                          "records": _expected_records(text)})
+    finally:
+        shutil.rmtree(tmp, ignore_errors=True)
+    if load_empty:
+        R.notes.append("Sequence.load on a file without any '>' header (no first record exists; outside the statement) raises: %r" % load_empty)
+    R.notes.append("the record name is the whole header line including '>', so it is never empty: the `if name:` guard in read_fasta "
+                   "cannot drop a record that has a header; an empty name is not reachable through read_fasta")
+    return R.done()
+
+
+# ----------------------------------------------------------------------------- replay
+def task_replay(tier, seed, arg):
+    arg = arg or {}
+    inp = arg.get("input")
+    R = Result("replay of one recorded input (kind code / seq / fasta) through the same checks as the task that found it")
+    if not isinstance(inp, dict) or "kind" not in inp:
+        R.notes.append("no replayable input given (need {'input': {'kind': 'code'|'seq'|'fasta', ...}})")
+        return R.done()
+    if inp["kind"] == "code":
+        if inp.get("code") is None:
+            r = task_code_tables(tier, seed, None)
+            return r
+        R.ok(_check_code(R, inp["type"], inp["code"]), (inp["type"], inp["code"]))
+        # set-level clauses (ambiguity set, T/U, rna-dna differences) live in the full table task
+        full = task_code_tables(tier, seed, None)
+        suffix = ":%s" % inp["code"]
+        for v in full["violations"]:
+            if v["key"].endswith(suffix) and not any(w["key"] == v["key"] for w in R.violations):
+                R.violations.append(v)
+                R.nviol += 1
+    elif inp["kind"] == "seq":
+        R.ok(_check_sequence(R, inp["type"], inp["raw"], inp.get("perm")), (inp["type"], _clean(inp["raw"])))
+    elif inp["kind"] == "fasta":
+        tmp = _mkdtemp()
+        try:
+            notes = {}
+            n, nrec = _check_fasta(R, tmp, inp["text"], inp["filename"], inp.get("type"), notes)
+            R.ok(n, (inp["filename"], nrec))
+            if notes:
+                R.notes.append("Sequence.load on a file without header raises %r" % notes)
+        finally:
+            shutil.rmtree(tmp, ignore_errors=True)
+    else:
+        R.notes.append("unknown input kind %r" % inp["kind"])
+    key = arg.get("key")
+    if key:
+        R.notes.append("recorded key %s %s" % (key, "reproduced" if any(v["key"] == key for v in R.violations) else "NOT reproduced"))
     return R.done()
